@@ -14,9 +14,9 @@ type Leaf struct {
 	Path string // e.g. "pos.Index", "input#ptr"
 	Sort string // Int | Bool | Str | Real
 	// memory placement (relative to the address of the outermost value when stored in memory)
-	Arr string // array family name
-	Off int    // cell offset from the base address
-	Typ types.Type
+	Arr  string // array family name
+	Off  int    // cell offset from the base address
+	Typ  types.Type
 	Comp string // "", ptr, len, cap, tag, val
 }
 
